@@ -8,6 +8,7 @@ CONSTANTS
   MaxErrs = 1
   MaxInflight = 2
   Reorder = TRUE
+  SlowSub = FALSE
 INIT Init
 NEXT Next
 VIEW view
